@@ -54,8 +54,13 @@ JW(j) == [t |-> "w", k |-> j.k, h |-> j.h, i |-> j.i, a |-> j.a, b |-> j.b, del 
 JWrites(js) == [x \in 1 .. Len(js) |-> JW(js[x])]
 
 RECURSIVE ApplyJ(_, _, _, _, _)
+\* apply the journal entries js[from..to] (divide and conquer, see TMStore!ApplyWrites)
 ApplyJ(c, d, js, from, to) ==
-  IF from > to THEN d ELSE ApplyJ(c, ApplyWrite(c, d, JW(js[from])), js, from + 1, to)
+  IF from > to THEN d
+  ELSE IF from = to THEN ApplyWrite(c, d, JW(js[from]))
+  ELSE LET mid  == (from + to) \div 2
+           left == ApplyJ(c, d, js, from, mid)
+       IN IF left.state >= -1 THEN ApplyJ(c, left, js, mid + 1, to) ELSE left     \* (test forces left first)
 
 \* disk after the whole operation in progress
 DiskAtEnd == ApplyJ(cfg, cur, Journal, curk + 1, Len(Journal))
@@ -97,12 +102,13 @@ Predicted(e, d, m) ==
     [] e.op = "Load"        -> [steps |-> JWrites(e.journal), res |-> "ok"]
     [] OTHER                -> [steps |-> << >>, res |-> "unknown-op"]
 
-RECURSIVE MemAtWrites(_, _, _)
-\* in-memory base/height of the BlockStore at the moment of each write
-MemAtWrites(m, steps, i) ==
-  IF i > Len(steps) THEN << >>
-  ELSE IF steps[i].t = "m" THEN MemAtWrites(ApplyMem(m, steps[i]), steps, i + 1)
-  ELSE << m >> \o MemAtWrites(m, steps, i + 1)
+\* in-memory base/height of the BlockStore at the moment of each write: the value set by the
+\* last "m" step before it (there are only a few "m" steps: one per flush / per SaveBlock)
+MemAtWrites(m, steps, from) ==
+  LET Ms  == {i \in from .. Len(steps) : steps[i].t = "m"}
+      idx == SelectSeq([i \in 1 .. Len(steps) |-> i], LAMBDA i : i >= from /\ steps[i].t = "w")
+  IN [k \in 1 .. Len(idx) |->
+        LET P == {x \in Ms : x < idx[k]} IN IF P = {} THEN m ELSE ApplyMem(m, steps[SetMax(P)])]
 
 StepOp(e) ==
   LET d  == DiskAtEnd
